@@ -123,6 +123,9 @@ func (w *Worker) RunPathSeeded(entry *ssa.Function, prefix []Decision, pinned []
 			return
 		}
 		switch r := r.(type) {
+		case stopSignal:
+			res.End = "unsupported"
+			res.Reason = "vStop outside vRunUntilStop"
 		case pathAbort:
 			res.Reason = r.reason
 			switch r.kind {
